@@ -11,6 +11,8 @@ from harness.props import c03
 ID = "C20"
 LEAN_MODULES = ["HierArc.Props.C20"]
 TRANSLATE = ["tables"]
+# when the translator cannot follow a rewritten source, the last generated model is run against the implementation instead
+TRANSLATOR_FALLBACK = True
 RULE = ("random lens configurations of all 14 types (sharp and with scatter; IFU flag, LOS, kinematic scaling grid, "
         "per-lens slope index, global slope) x random prior lists (1-4 entries over realised and non-realised names, "
         "random means/widths, duplicates); each case evaluated with and without the list under the same seed; plus "
